@@ -12,7 +12,10 @@ EXPLANATION = (
     'deserializing maps each arity to the same-named serialised arity and feeds the continuation only the Ok payload of the '
     'deserialiser. R02.c each request owns a private channel / shared state whose sending half lives only in its resolve closure. '
     'R02.d the value passed to a resolve closure flows unchanged into the channel send / result slot. R02.e stream closures '
-    'return the failure of the send; one-shot closures may discard it but never unwrap it. Cross-delivery freedom under every '
+    'return the failure of the send; one-shot closures may discard it but never unwrap it. R02.f Core::resolve reports a rejected resolution as '
+    'an Err value. R02.g a value delivered into a legacy future reaches the asking task (pending poll keeps this poll\'s waker under the slot\'s '
+    'lock; resolve delivers, takes and wakes under it). R02.h a serialised resolution addressed to no outstanding request (a second response to a '
+    'one-shot) is an Err, never a panic. Cross-delivery freedom under every '
     'interleaving is argued from ownership, not decided.')
 
 CLOSURE_CALLS = ['core::ops::function::Fn::call', 'core::ops::function::FnMut::call_mut', 'core::ops::function::FnOnce::call_once']
